@@ -1,20 +1,20 @@
 SPECIFICATION Spec
 CONSTANTS
-  MaxSize = 6
+  MaxSize = 7
   MaxBlocks = 3
   Inits = "full"
   KindMode = "one"
   AlignVals = {}
   MaxAligned = 0
-  ItemMode = "dense"
+  ItemMode = "none"
   MaxItems = 0
-  Addrs = {"none", "4096"}
-  Grows = {}
-  Lates = TRUE
-  AddAligns = {}
-  OnlyTiled = FALSE
+  Addrs = {"4096"}
+  Grows = {1, 2, 3}
+  Lates = FALSE
+  AddAligns = {4, 8, 16}
+  OnlyTiled = TRUE
   NopKinds = {"1"}
-  VariantSet = "geo"
+  VariantSet = "alpatch"
   Rotate = 0
   Emit = TRUE
 INVARIANT Inv
